@@ -10,6 +10,7 @@ package varmq
 
 import (
 	"fmt"
+	"strings"
 	"github.com/goptics/varmq/internal/vt"
 )
 
@@ -356,5 +357,133 @@ func init() {
 			e.notes = append(e.notes, fmt.Sprintf("LIFECYCLE: the configured context was cancelled, the system is at rest, and the worker reports %s", st))
 		}
 	})
-}
 
+	// ctxpersist: a worker with a configured context on an acknowledging adapter; the context is
+	// cancelled while items are being delivered and dispatched. Whatever the shutdown does with an
+	// item already taken from the adapter, it is acknowledged only after the worker function has
+	// returned for it (C11): at the end every accepted item is processed, or still held by the adapter.
+	registerFamily("ctxpersist", []string{"C11", "C01"}, func(e *env) {
+		r := vt.Rand()
+		e.kind = kPlain
+		e.conc = e.p("conc", 1+r.Intn(3))
+		e.withCtx = true
+		e.noFinalDrain = true
+		e.mkWorker()
+		q := e.bind(pick(r, qPersist, qPersistPrio, qDist))
+		var jn joiner
+		n := 2 + r.Intn(4)
+		jn.goClient("producer", func() {
+			for i := 0; i < n; i++ {
+				e.add(q, r.Intn(3), oOK, r.Intn(4) == 0, "")
+				if r.Intn(2) == 0 {
+					vt.Yield()
+				}
+			}
+		})
+		jn.goClient("canceller", func() {
+			for k := r.Intn(12); k > 0; k-- {
+				vt.Yield()
+			}
+			e.lifecycle("CtxCancel", 0)
+		})
+		jn.goClient("opener", func() {
+			for k := r.Intn(8); k > 0; k-- {
+				vt.Yield()
+			}
+			e.openGates()
+		})
+		jn.wait()
+		e.openGates()
+		vt.WaitIdle()
+	})
+
+	// barriers: several barrier callers at once (Stop, Stop, WaitAndStop, PauseAndWait,
+	// WaitUntilFinished) against a worker with jobs in flight and pending, and nobody resuming: each
+	// of the calls returns only when no worker function is executing (C06), and nothing starts
+	// after any of them has returned (C09).
+	registerFamily("barriers", []string{"C06", "C09", "C03"}, func(e *env) {
+		r := vt.Rand()
+		e.kind = e.p("kind", r.Intn(3))
+		e.conc = e.p("conc", 1+r.Intn(3))
+		e.noFinalDrain = true
+		e.withCtx = r.Intn(4) == 0
+		e.mkWorker()
+		q := e.bind(pick(r, qFifo, qPrio))
+		n := 1 + r.Intn(4)
+		for i := 0; i < n; i++ {
+			e.add(q, 0, oOK, r.Intn(3) != 0, "")
+		}
+		if r.Intn(2) == 0 {
+			vt.WaitIdle() // min(n, conc) jobs are in flight
+		}
+		var jn joiner
+		for c := 2 + r.Intn(2); c > 0; c-- {
+			jn.goClient("caller", func() {
+				for k := r.Intn(4); k > 0; k-- {
+					vt.Yield()
+				}
+				what := []string{"Stop", "Stop", "WaitAndStop", "PauseAndWait", "WaitUntilFinished", "CtxCancel"}[r.Intn(6)]
+				if what == "CtxCancel" && !e.withCtx {
+					what = "Stop"
+				}
+				e.lifecycle(what, 0)
+			})
+		}
+		if r.Intn(2) == 0 {
+			jn.goClient("producer", func() {
+				vt.Yield()
+				e.add(q, 0, oOK, false, "")
+			})
+		}
+		jn.goClient("opener", func() {
+			for k := r.Intn(6); k > 0; k-- {
+				vt.Yield()
+			}
+			e.openGates()
+		})
+		jn.wait()
+		vt.WaitIdle()
+	})
+
+	// stopwindow: directed. A Stop / WaitAndStop caller is held right before it writes the status
+	// word inside Stop, and the pool goroutines are held at their receive; jobs are submitted in
+	// that window; then the stopper is released and, once it has returned or cannot go on, the pool
+	// goroutines. Whatever was let through in the window must not start after Stop has returned
+	// (C09), and Stop must not return over an executing worker function (C06).
+	registerFamily("stopwindow", []string{"C09", "C06", "C03"}, func(e *env) {
+		r := vt.Rand()
+		e.kind = e.p("kind", r.Intn(3))
+		e.conc = e.p("conc", 1+r.Intn(2))
+		e.noFinalDrain = true
+		e.mkWorker()
+		q := e.bind(pick(r, qFifo, qPrio))
+		if r.Intn(2) == 0 {
+			e.add(q, 0, oOK, false, "")
+			e.lifecycle("WaitUntilFinished", 0)
+		}
+		vt.WaitIdle()
+		stopper, phase := -1, 1
+		vt.Hold(func(tid, site int, kind string) bool {
+			n := siteName(site)
+			if phase == 1 && tid == stopper && (kind == "store" || kind == "cas") && strings.HasPrefix(n, "worker.Stop/w.status.") {
+				return true
+			}
+			return phase < 3 && kind == "recv" && n == "Node.Serve/range wc.ch"
+		})
+		var jn joiner
+		jn.goClient("stopper", func() {
+			stopper = vt.Cur().ID
+			e.lifecycle([]string{"Stop", "WaitAndStop"}[r.Intn(2)], 0)
+		})
+		vt.WaitIdle() // the stopper sits before its status write
+		for i := 1 + r.Intn(2); i > 0; i-- {
+			e.add(q, 0, oOK, false, "")
+		}
+		vt.WaitIdle()
+		phase = 2
+		vt.WaitIdle() // the stopper has returned, or waits for what was let through
+		phase = 3
+		jn.wait()
+		vt.WaitIdle()
+	})
+}
